@@ -36,8 +36,8 @@ TRUSTED_BASE = [
 ]
 ASSUMPTIONS = [
     "theorems: histories of ONE registry flavour (all invalidating or all verifying), registries addressed "
-    "after their creation, bases earlier in creation order (acyclic registry graph), no rebuild() "
-    "(rebuild() used to forget the sub-registries, in the code too: repaired, see Example C05_rebuild_witness_transparent); the tie also runs "
+    "after their creation, bases earlier in creation order (acyclic registry graph); rebuild() included "
+    "(it used to forget the sub-registries, in the code too: repaired, see Example C05_rebuild_witness_transparent); the tie also runs "
     "verifying-over-invalidating chains, which the theorems do not cover",
     "generated histories never re-base an interface used as *provided* or one of its ancestors (outside the "
     "property; the theorems do not need this: extendors are stored state, so the caches stay transparent, "
@@ -60,8 +60,7 @@ LEVEL_TEXT = ("Machine-checked theorems (Properties/C05.v, closed under the glob
 LEVEL_NOTE = ("Trusted: Coq kernel/vm_compute; the shared transcriptions Model/Adapter, Lookup, RegSys and "
               "Model/CacheSys (validated by the correspondence); fresh_sro as the orders lookups walk (C02); the "
               "driver's translation of declaration calls into the __bases__ assignments it observes.  Not covered by "
-              "the theorems: mixed-flavour chains (tested only), rebuild() (was a real defect, repaired in /repo; outside the "
-              "property's mutation list), weak-reference death of subscribed specifications.")
+              "the theorems: mixed-flavour chains (tested only), weak-reference death of subscribed specifications.")
 
 MUT_KINDS = ("reorder", "register", "unregister", "subscribe", "unsubscribe", "setregbases", "setspecbases",
              "classimplements", "directlyprovides", "alsoprovides", "nolongerprovides")
@@ -296,7 +295,7 @@ def gen_case(rng, n_target):
 
     weights = {"register": 7, "unregister": 3, "subscribe": 4, "unsubscribe": 2, "setregbases": 2,
                "setspecbases": 4, "classimplements": 3, "directlyprovides": 2, "alsoprovides": 2,
-               "nolongerprovides": 1, "reorder": 5}
+               "nolongerprovides": 1, "reorder": 5, "rebuild": 0.4}
     kinds = list(weights)
     ws = [weights[k] for k in kinds]
     guard = 0
@@ -369,6 +368,14 @@ def gen_case(rng, n_target):
                 probe = probe_subs(rng.choice(below), req, p)
             reg_bases[r] = bs
             emit(probe, [k, r, bs], k)
+        elif k == "rebuild":
+            # rebuild() of a registry that has registrations, looked up from it or from below
+            seen = [e for e in regs_seen if e[0] == r]
+            probe = None
+            if seen:
+                _r0, req, p, nm = rng.choice(seen)
+                probe = probe_adapter(rng.choice(chain(r)), req, p, nm)
+            emit(probe, ["rebuild", r], k)
         elif k == "reorder":
             # a pure REORDERING of the bases of an interface m one or two levels above the looked-up
             # spec, with competing registrations on the reordered bases: the set of ancestors of
